@@ -49,6 +49,21 @@ func guard(f func() error) (res string) {
 }
 
 func str(n int) string {
+	if utf8Mode {
+		// n BYTES of two- and three-byte characters (an ASCII letter fills up the remainder)
+		var sb strings.Builder
+		for sb.Len()+3 <= n {
+			if sb.Len()%5 == 0 {
+				sb.WriteString("\u6f22") // 3 bytes
+			} else {
+				sb.WriteString("\u00e9") // 2 bytes
+			}
+		}
+		for sb.Len() < n {
+			sb.WriteByte('a')
+		}
+		return sb.String()
+	}
 	b := make([]byte, n)
 	for i := range b {
 		b[i] = byte('a' + (i*7+n)%26)
@@ -219,6 +234,61 @@ func main() {
 	if thorough {
 		nst = 3000
 	}
+	for _, m := range []bool{false, true} {
+		utf8Mode = m // second pass: text made of multi-byte characters (lengths are BYTE lengths)
+		pass(thorough, nst)
+	}
+	pemBundles()
+}
+
+var utf8Mode bool
+
+// pemBundles: streams of several PEM-encoded certificates (trust files) decode to the certificates that went in
+func pemBundles() {
+	mk := func(k int) *certs.Certificate {
+		kp := keys.GenerateNewX25519KeyPair()
+		c, err := certs.SelfSignLeaf(&certs.Identity{PublicKey: kp.Public, Names: []certs.Name{certs.DNSName(fmt.Sprintf("host-%d.example", k)), certs.RawStringName(fmt.Sprintf("raw-%d", k))}})
+		if err != nil {
+			panic(err)
+		}
+		return c
+	}
+	for _, count := range []int{1, 2, 3, 5} {
+		var cs []*certs.Certificate
+		for k := 0; k < count; k++ {
+			cs = append(cs, mk(k))
+		}
+		enc := "ok"
+		var bundle []byte
+		for _, c := range cs {
+			b, err := certs.EncodeCertificateToPEM(c)
+			if err != nil {
+				enc = "err"
+				break
+			}
+			bundle = append(bundle, b...)
+			bundle = append(bundle, '\n')
+		}
+		dec, same := "na", false
+		if enc == "ok" {
+			got, err := certs.ReadManyCertificatesPEM(bytes.NewReader(bundle))
+			dec = "ok"
+			if err != nil {
+				dec = "err"
+			} else {
+				same = len(got) == len(cs)
+				for k := 0; same && k < len(cs); k++ {
+					a, _ := cs[k].Marshal()
+					b, err := got[k].Marshal()
+					same = err == nil && bytes.Equal(a, b) && len(got[k].IDChunk.Blocks) == len(cs[k].IDChunk.Blocks) && got[k].Fingerprint == cs[k].Fingerprint
+				}
+			}
+		}
+		w.Ev("rt", "codec", "pembundle", "lens", map[string]int{"count": count}, "enumok", "yes", "enc", enc, "dec", dec, "same", yn(same), "bytes", len(bundle))
+	}
+}
+
+func pass(thorough bool, nst int) {
 	// ---- common string -------------------------------------------------------------------------
 	decStr := func(b []byte) (interface{}, error) {
 		r := bytes.NewReader(b)
